@@ -7,5 +7,5 @@ def run(ck):
     ck.note('deductive obligations inherited (not re-run here): C05 forge_int/forge_nat/unforge_int/forge_array/forge_micheline, '
             'C10 forge/unforge of address, contract, key, key_hash, signature, chain_id')
     return run_parts(ck, 'C04', 'other', 'exploration',
-                     'R: pack(v) == independent PACK spec (validated on 66 recorded artefacts), unpack(pack(v)) == v on 4378 packable types; '
+                     'P: pack/unpack/UNPACK wrapper logic and comb layouts over opaque components; R: pack(v) == independent PACK spec (validated on 66 recorded artefacts), unpack(pack(v)) == v on 4378 packable types; '
                      'UNPACK returns Some only for byte strings accepted by the strict spec decoder, on mutated encodings')
